@@ -342,6 +342,14 @@ impl<VM: VMBinding> FreeListPageResource<VM> {
         // if (VM.config.ZERO_PAGES_ON_RELEASE)
         //     VM.memory.zero(false, first, Conversions.pagesToBytes(pages));
         debug_assert!(pages as usize <= self.common.accounting.get_committed_pages());
+        #[cfg(feature = "mmtk_verif")]
+        crate::verif::emit(
+            crate::verif::EV_RELEASE,
+            &self.common as *const _ as usize as u64,
+            first.as_usize() as u64,
+            pages as u64,
+            0,
+        );
 
         if self.protect_memory_on_release.is_some() {
             self.mprotect(first, pages as _);
